@@ -17,7 +17,7 @@
 
 import uuid
 from types import FrameType
-from typing import Dict, Optional, List
+from typing import Dict, Optional, List, Tuple
 
 import deep.logging
 from deep.api.plugin import TracepointLogger
@@ -150,11 +150,20 @@ class TriggerContext:
         :param expression: the expression
         :return: the result of the expression, or the exception that was raised.
         """
+        return self.try_evaluate_expression(expression)[1]
+
+    def try_evaluate_expression(self, expression: str) -> Tuple[bool, any]:
+        """
+        Evaluate an expression to a value, and tell apart a result from a failure to evaluate.
+
+        :param expression: the expression
+        :return: (True, the result of the expression), or (False, the exception that was raised).
+        """
         try:
             # evaluate in the scope of the paused frame: its module globals and its locals (not our globals)
-            return eval(expression, getattr(self.__frame, 'f_globals', None), self.__frame.f_locals)
+            return True, eval(expression, getattr(self.__frame, 'f_globals', None), self.__frame.f_locals)
         except BaseException as e:
-            return e
+            return False, e
 
     def attach_result(self, result: ActionResult):
         """
